@@ -155,7 +155,7 @@ class DocGen:
         if kind == 'drawing':
             dsc = r.choice(['', ' descr="d &amp; &lt;x&gt;"', ' descr=""', ' descr="plain alt"'] if P.get('alt_markup', True) else ['', ' descr="plain alt"', ' descr="alt two"'])
             e = r.choice(['r:embed="rId20"', 'r:embed="rId404"', 'r:link="rId21"', '', 'r:embed="rId21"'] if P.get('dangling') else ['r:embed="rId20"', 'r:embed="rId21"', ''])
-            if P.get('no_r'): e = ''
+            if P.get('no_r'): e = r.choice(['', f'xmlns:r="{NSMAP["r"]}" r:embed="rId20"'])      # the prefix may be declared on the picture itself
             if r.random() < 0.2 and dsc:
                 # a described drawing without a picture (chart / shape placeholder): only the alt text is rendered
                 return f'<w:drawing><wp:inline><wp:extent cx="1" cy="1"/><wp:docPr id="2" name="chart"{dsc}/><a:graphic><a:graphicData uri="chart"><a:chartPlaceholder/></a:graphicData></a:graphic></wp:inline></w:drawing>'
@@ -247,6 +247,9 @@ class DocGen:
         if kind == 'fld': return '<w:fldSimple w:instr=" PAGE ">' + self.run(d, in_link=in_link) + '</w:fldSimple>'
         if kind == 'sdt': return '<w:sdt><w:sdtPr><w:dropDownList><w:listItem w:value="a"/></w:dropDownList></w:sdtPr><w:sdtEndPr/><w:sdtContent>' + self.run(d, in_link=in_link) + '</w:sdtContent></w:sdt>'
         self.feat.add('math')
+        if r.random() < 0.2:
+            # ordinary text inside an equation is a w:r, not an m:r
+            return '<m:oMath><m:r><m:t>x=</m:t></m:r><w:r><w:t xml:space="preserve"> where </w:t></w:r><m:r><m:t>y</m:t></m:r></m:oMath>'
         if r.random() < 0.7 or not self.p.get('math_markup', True):
             return '<m:oMath><m:r><m:t>x</m:t></m:r><m:f><m:num><m:r><m:t>1</m:t></m:r></m:num><m:den><m:r><m:t>2</m:t></m:r></m:den></m:f></m:oMath>'
         return '<m:oMathPara><m:oMath><m:r><m:t>' + r.choice(['y&lt;', 'a&lt;b', 'x&gt;0 &amp; y', '&amp;lt;', 'p&amp;q', 'y&lt;']) + '</m:t></m:r></m:oMath></m:oMathPara>'
@@ -434,7 +437,8 @@ def make_package(rng, prof=None, body=None):
     g = DocGen(rng, prof)
     NS = ns_decl(omit)
     body_xml = g.body() if body is None else body
-    if omit and ('r:' in body_xml): omit = (); NS = ns_decl()
+    import re as _re
+    if omit and ('r:' in _re.sub(r'xmlns:r="[^"]*" r:embed="[^"]*"', '', body_xml)): omit = (); NS = ns_decl()
     if omit: g.feat.add('no_r_namespace')
     pk = Package()
     pk.add('[Content_Types].xml', '<Types xmlns="http://schemas.openxmlformats.org/package/2006/content-types"/>')
@@ -443,7 +447,7 @@ def make_package(rng, prof=None, body=None):
         root_rels.append(('rId2', CORE_RT, 'docProps/core.xml'))
     pk.add('_rels/.rels', rels_xml(root_rels))
     pk.add('word/document.xml', f'<w:document {NS}><w:body>{body_xml}</w:body></w:document>')
-    dr = [('rId9', 'hyperlink', r.choice(['http://x/', 'http://x/', 'http://z/app/#/settings', 'http://x/guide.html#intro']), True), ('rId10', 'hyperlink', 'http://y/?a=1&b=2', True), ('rId20', 'image', 'media/i.png'),
+    dr = [('rId9', 'hyperlink', r.choice(['http://x/', 'http://x/', 'http://z/app/#/settings', 'http://x/guide.html#intro', 'mailto:a@b.c', 'C:\\docs\\x.docx', 'HTTP://X/Y', 'tel:+123', '../other.docx']), True), ('rId10', 'hyperlink', 'http://y/?a=1&b=2', True), ('rId20', 'image', 'media/i.png'),
           ('rId21', 'image', 'http://ext/i.png', True)]
     if r.random() < prof['p_numbering']:
         pk.add('word/numbering.xml', f'<w:numbering {ns_decl()}>{g.numbering()}</w:numbering>'); dr.append(('rId3', 'numbering', 'numbering.xml'))
